@@ -194,10 +194,14 @@ def wide_scripts(mi, rnd):
                 ops.append(('set' if d2 else 'tmut', x, 7 + k))
                 ops.append(('mut', x, 1))
             ops.append(call_op(d2, ev0, plc.next(mi, ev0)))
-        for ev in mi.events[1:]:
+        for ev in (mi.events[1:] if len(mi.events) <= 8 else mi.events[-2:]):
             ops.append(call_op(d2, ev, plc.next(mi, ev)))
         ops.append(('drop',))
         out.append(ops)
+        if len(mi.events) > 8:
+            for ev in (mi.events[1], mi.events[2], mi.events[255], mi.events[256], mi.events[257], mi.events[-2]):
+                st, d3 = start_ops(mi, rnd, dyn)
+                out.append(list(st) + [call_op(d3, ev, None), call_op(d3, ev0, None), ('drop',)])
     if mi.dynamic:
         plc = PL()
         ops = [('dnew', 3)] + [call_op(True, ev0, plc.next(mi, ev0)) for _ in range(n - 1)]
@@ -966,6 +970,13 @@ def fixtures():
                 ('states', [('leaf', x, 'D%d' % (i % 4)) for i, x in enumerate(wide)]),
                 ('events', [('step', [('transition', [('from', [wide[i]]), ('to', wide[(i + 1) % 66])]) for i in range(66)]),
                             _ev('home', _tr(wide[1:], 'W0')), _ev('only_last', _tr(['W65'], 'W1'))])])
+    # more than 256 leaves and more than 256 events (indices that do not fit a byte): a chain through every leaf, and 257
+    # events out of the first leaf
+    huge = ['S%d' % i for i in range(258)]
+    out.append([('name', 'M'), ('initial', 'S0'), ('dynamic', True),
+                ('states', [('leaf', x, 'D1' if i in (0, 257) else None) for i, x in enumerate(huge)]),
+                ('events', [('step', [('transition', [('from', [huge[i]]), ('to', huge[i + 1])]) for i in range(257)])] +
+                           [_ev('x%d' % k, _tr(['S0'], 'S2')) for k in range(257)] + [_ev('last', _tr(['S257', 'S256'], 'S0'))])])
     # states called like the Ruby DSL's keywords (capitalised as states are): sources, targets, superstate
     out.append([('name', 'M'), ('initial', 'Idle'), ('dynamic', True),
                 ('states', [('leaf', 'Idle', None), ('leaf', 'Any', 'D0'), ('super', 'All', None, [('leaf', 'Same', None), ('leaf', 'Different', 'D1')]), ('leaf', 'Done', None)]),
